@@ -1,6 +1,7 @@
 CONSTANTS
   MaxPath = 2
   NFlowsA = 0
+  SymLits <- SymNone
   MaxFlows = 0
   FlowDomain = {}
   TxnDomain = {}
